@@ -416,8 +416,24 @@ def make_natives(E, unit):
     def n_str_to_string(ex, callee, args, m):
         return VString(list(_deref(ex, args[0]).bytes))
 
+    def _fresh_naive(ex, date_only):
+        """abstract parse result: Ok or Err (fresh Bool) with an arbitrary value of chrono's range (fresh Ints)"""
+        ex.abs_n = getattr(ex, "abs_n", 0) + 1
+        k = ex.abs_n
+        ok = smt.var(f"p{k}_ok", smt.BOOL)
+        y, mo, d = (smt.var(f"p{k}_{n}", smt.INT) for n in ("y", "m", "d"))
+        ex.assumptions += [smt.le(C(-262143), y), smt.le(y, C(262142)), smt.le(C(1), mo), smt.le(mo, C(12)), smt.le(C(1), d),
+                           smt.le(d, days_in_month(y, mo))]
+        if date_only:
+            return VRes(ok, VStruct("NaiveDate", [VInt(y), VInt(mo), VInt(d)]), VOpaque("ParseError"))
+        tod = smt.var(f"p{k}_tod", smt.INT)
+        ex.assumptions += [smt.le(C(0), tod), smt.lt(tod, C(NS_DAY + 10 ** 9))]          # incl. a leap second
+        return VRes(ok, VStruct("NaiveDateTime", [VInt(instant_of(y, mo, d, tod))]), VOpaque("ParseError"))
+
     def n_parse_dt(ex, callee, args, m):
         ex_holder[0] = ex
+        if getattr(ex, "abstract_parse", False):
+            return _fresh_naive(ex, False)
         bs, fmt = list(_deref(ex, args[0]).bytes), _pystr(args[1])
         matched, conds, fields = chrono_fmt.parse_fields(bs, fmt)
         if not matched:
@@ -432,6 +448,8 @@ def make_natives(E, unit):
 
     def n_parse_date(ex, callee, args, m):
         ex_holder[0] = ex
+        if getattr(ex, "abstract_parse", False):
+            return _fresh_naive(ex, True)
         bs, fmt = list(_deref(ex, args[0]).bytes), _pystr(args[1])
         matched, conds, fields = chrono_fmt.parse_fields(bs, fmt)
         if not matched:
@@ -440,6 +458,22 @@ def make_natives(E, unit):
         if not pd:
             return VRes(smt.FALSE, None, VOpaque("ParseError"))
         return VRes(smt.and_(*(conds + [okd])), VStruct("NaiveDate", [VInt(ymd[0]), VInt(ymd[1]), VInt(ymd[2])]), VOpaque("ParseError"))
+
+    def n_parse_time(ex, callee, args, m):
+        """NaiveTime::parse_from_str / str::parse::<NaiveTime>: abstractly Ok(any time of day, possibly a leap second) or Err"""
+        ex.abs_n = getattr(ex, "abs_n", 0) + 1
+        k = ex.abs_n
+        ok, tod = smt.var(f"p{k}_ok", smt.BOOL), smt.var(f"p{k}_tod", smt.INT)
+        ex.assumptions += [smt.le(C(0), tod), smt.lt(tod, C(NS_DAY + 10 ** 9))]
+        return VRes(ok, VStruct("NaiveTime", [VInt(tod)]), VOpaque("ParseError"))
+
+    def n_time_secs(ex, callee, args, m):
+        tod = _deref(ex, args[0]).items[0].t
+        return VInt(smt.ite(smt.ge(tod, C(NS_DAY)), C(86399), smt.idiv(tod, C(10 ** 9))))
+
+    def n_time_nanos(ex, callee, args, m):
+        tod = _deref(ex, args[0]).items[0].t
+        return VInt(smt.ite(smt.ge(tod, C(NS_DAY)), smt.sub(tod, C(86399 * 10 ** 9)), smt.imod(tod, C(10 ** 9))))
 
     def n_from_naive(ex, callee, args, m):
         return cr(args[0].items[0].t)
@@ -600,6 +634,13 @@ def make_natives(E, unit):
         (N(r"^<str as ToString>::to_string$"), n_str_to_string),
         (N(r"^NaiveDateTime::parse_from_str$"), n_parse_dt),
         (N(r"^NaiveDate::parse_from_str$"), n_parse_date),
+        (N(r"^NaiveTime::parse_from_str$|^core::str::<impl str>::parse::<NaiveTime>$"), n_parse_time),
+        (N(r"^<NaiveTime as Timelike>::num_seconds_from_midnight$"), n_time_secs),
+        (N(r"^<NaiveTime as Timelike>::nanosecond$"), n_time_nanos),
+        (N(r"^Result::<NaiveTime, chrono::ParseError>::map_err::<"), lambda ex, c, a, m: VRes(a[0].ok, a[0].val, VOpaque("TError"))),
+        (N(r"^<Result<NaiveTime, tea_error::TError> as Try>::branch$"), lambda ex, c, a, m: VRes(a[0].ok, a[0].val, VRes(False, None, a[0].err))),
+        (N(r"^<Result<Time, tea_error::TError> as FromResidual<Result<Infallible, tea_error::TError>>>::from_residual$"),
+         lambda ex, c, a, m: VRes(False, None, VOpaque("TError"))),
         (N(r"^chrono::DateTime::<Utc>::from_naive_utc_and_offset$"), n_from_naive),
         (N(r"^<NaiveDateTime as Into<datetime::DateTime<[UT]>>>::into$"), n_ndt_into),
         (N(r"^<NaiveDate as Into<datetime::DateTime<[UT]>>>::into$"), n_nd_into),
@@ -1462,3 +1503,36 @@ def validate_getters(unit, rng):
         if got != want:
             bad.append(f"instant {inst} ns: chrono gives {got}, calendar law {want}")
     return len(tss), bad
+
+
+def check_parse_abstract(E, tf, unit, with_fmt):
+    """DateTime::<U>::parse on ANY string (and any format): chrono's parsers are abstracted to "Err, or Ok of an arbitrary value of
+    chrono's range" (fresh symbols per call), so the claim is: whatever chrono returns, tevec's own code after it reaches no panic."""
+    run = Run(E, unit)
+    run.ex.abstract_parse = True
+    run.ex.frac_class = "zero"
+    fopt = VOpt(True, VStr([C(b) for b in b"%Y"])) if with_fmt else VOpt(False, None)
+    res = run.call(tf["parse"], [VStr([C(b) for b in b"?"]), fopt])
+    qs = [([ob.cond], "DateTime::parse panics after chrono accepted the text: " + ob.msg) for ob in run.ex.obligations]
+    wit = [([res.ok], "some parse succeeds"), ([smt.not_(res.ok)], "every parse fails")]
+    return [], run, qs, res, wit
+
+
+def find_time_parse(E):
+    c = [f for n, f in E.fns.items() if re.fullmatch(r"time::<impl at [^>]*>::parse", n) and len(f.args) == 2]
+    if len(c) != 1:
+        raise ExecError("cannot locate Time::parse in the MIR dump")
+    return c[0]
+
+
+def check_time_parse_abstract(E, fn, with_fmt):
+    """Time::parse on any string / format, chrono's NaiveTime parsers abstracted (Err, or any time of day incl. a leap second)"""
+    run = Run(E, "Nanosecond")
+    fopt = VOpt(True, VStr([C(b) for b in b"%H"])) if with_fmt else VOpt(False, None)
+    res = run.call(fn, [VStr([C(b) for b in b"?"]), fopt])
+    qs = [([ob.cond], "Time::parse panics after chrono accepted the text: " + ob.msg) for ob in run.ex.obligations]
+    if res.val is not None:
+        v_ = res.val.items[0].t
+        qs.append(([res.ok, smt.or_(smt.lt(v_, C(0)), smt.ge(v_, C(NS_DAY + 10 ** 9)))], "Time::parse returns a value outside the day"))
+    wit = [([res.ok], "the parse succeeds"), ([smt.not_(res.ok)], "the parse fails")]
+    return [], run, qs, res, wit
